@@ -47,7 +47,7 @@ def run(ctx):
             continue
         if ctx.replay_filter and ctx.replay_filter['case'].get('case') != c:
             continue
-        for sp in ((0, 24) if quick else (0, 24, 27, 10)):
+        for sp in ((0, 24, -20) if quick else (0, 24, 27, 10, -20, -14, -24)):        # entries from 1e-7 to 1e+8
             for rep in range(1 if quick else 3):
                 T = target(rng, n, rho, sp)
                 seed = int(rng.integers(1 << 30))
@@ -69,3 +69,12 @@ def run(ctx):
                     a, b = F.dense(Z), F.dense(T)
                     err = np.linalg.norm(a - b) / np.linalg.norm(b)
                     ctx.check(err <= 1e-5, 'svd_incomplete:recovery', what + ': relative error %.2e although the target is recoverable' % err, case=row)
+                    # the same sample arrays used again (a sweep over caps): the data must be intact and the answer the same
+                    y_keep, I_keep = y.copy(), I.copy()
+                    Z2 = teneva.svd_incomplete(I, y, idx, idxm, 1e-10, cap + 1)
+                    Z3 = teneva.svd_incomplete(I, y, idx, idxm, 1e-10, cap)
+                    ok2 = np.array_equal(y, y_keep) and np.array_equal(I, I_keep) and F.is_wellformed(Z3, n)
+                    if ok2:
+                        e3 = np.linalg.norm(F.dense(Z3) - b) / np.linalg.norm(b)
+                        ok2 = e3 <= 1e-5
+                    ctx.check(ok2, 'svd_incomplete:reuse', what + ': a further reconstruction from the same sample arrays differs (data changed: %s)' % (not np.array_equal(y, y_keep)), case=row)
